@@ -355,6 +355,35 @@ def n3_cast(src, log, target, helper):
         log.append(f"N3 `{' '.join(operand.split())[:50]} as {target}` -> {helper}(..)")
 
 
+def n6_name_receiver(src, log, method):
+    """E.m(ARGS)  ->  { let mut __vx_iK = E; /*vx:itK:pre*/ let __vx_rK = __vx_iK.m(ARGS); /*vx:itK:post*/ __vx_rK }
+    for an iterator-consuming method m taking `&mut self` (all / any / find / position): the
+    receiver temporary gets a name so that proof text can talk about the iterator before and after."""
+    k_it = 0
+    # numbering continues over methods: count existing markers
+    import re as _re
+    k_it = len(_re.findall(r"/\*vx:it\d+:pre\*/", src))
+    while True:
+        toks = lex(src)
+        hit = None
+        for i, t in enumerate(toks):
+            if t.text == "." and i + 2 < len(toks) and toks[i + 1].text == method and toks[i + 2].text == "(" \
+                    and not (i > 0 and toks[i - 1].text.startswith("__vx_i")):
+                hit = i
+                break
+        if hit is None:
+            return src
+        s = _chain_start(toks, hit)
+        chain = src[toks[s].start:toks[hit].start]
+        close = toks[hit + 2].mate
+        args = src[toks[hit + 2].start:toks[close].end]
+        k_it += 1
+        rep = (f"{{ let mut __vx_i{k_it} = {chain}; /*vx:it{k_it}:pre*/ let __vx_r{k_it} = __vx_i{k_it}.{method}{args}; "
+               f"/*vx:it{k_it}:post*/ __vx_r{k_it} }}")
+        src = src[:toks[s].start] + rep + src[toks[close].end:]
+        log.append(f"N6 E.{method}(..) -> named receiver __vx_i{k_it} [E = {' '.join(chain.split())[:70]}]")
+
+
 DEFAULT_RULES = ("n5", "n4", "n2", "n1")
 
 
@@ -372,6 +401,8 @@ def normalise(src, rules, log):
             src = n7_sum(src, log)
         elif r == "n7enum":
             src = n7_enumerate_collect(src, log)
+        elif r.startswith("n6:"):
+            src = n6_name_receiver(src, log, r.split(":")[1])
         elif r.startswith("n3:"):
             _, target, helper = r.split(":")
             src = n3_cast(src, log, target, helper)
